@@ -20,7 +20,8 @@ ASSUMPTIONS = ["feature/rule hooks of a container whose own tags match but which
 EXPRS = ("t", "not t", "u", "t and u", "t or u", "not (t or u)", "t and not u", "t*", "-t", "t,u",
          "t && not u", "t && -u", "t,u && -u", "t or u && not t",      # "x && y" = two --tags arguments
          "r<1>", "not r<1>",
-         "~t", "-@t", "~@t", "@t,~@u")         # every spelling of an old-style negation: {-, ~} x optional @
+         "~t", "-@t", "~@t", "@t,~@u",
+         "[t]*", "not ?*", "[!u]")             # wildcard kinds combined / a character class as the only wildcard         # every spelling of an old-style negation: {-, ~} x optional @
 
 
 def bases(tier):
